@@ -90,7 +90,7 @@ static void all_faults(int thorough) {
 }
 
 int main(int argc, char **argv) {
-	h_init(); if (argc < 5) return 2; int thorough = !strcmp(argv[2], "thorough"); int sh = atoi(argv[3]), nsh = atoi(argv[4]);
+	h_init(); h_watchdog(5, 12);	/* 60 s of CPU inside one element = the call under test does not return */ if (argc < 5) return 2; int thorough = !strcmp(argv[2], "thorough"); int sh = atoi(argv[3]), nsh = atoi(argv[4]);
 	for (size_t i = 0; i < sizeof plain; i++) plain[i] = "abcabcabd-xyz"[i % 13] ^ (uint8_t)(i / 30);
 	long idx = 0;
 	// seeds: .xz x {crc32, crc64, sha256} x {1 Block, 2 Blocks, 2 Streams + padding, size fields}, .lzma x2, .lz x3
